@@ -40,6 +40,11 @@ def gen_plan(seed, i, tier):
                 s['nv'], s['nt'] = 30, 40
             if s.get('bones') and ver == 'SK':
                 s['wpv'] = rng.range(1, 6)
+            if ver == 'SK' and s.get('kind') is None and rng.chance(0.08):
+                # an LE partition may use any number of bones, an SE partition at most 80: conversion has to split it
+                s.update({'bones': rng.range(90, 120), 'nv': rng.range(100, 250), 'wpv': 4, 'partitions': rng.range(2, 3)})
+                s['nt'] = 2 * s['nv']
+                s.pop('some_unweighted', None)
             if s.get('bones') and ver == 'SSE':
                 if rng.chance(0.35):
                     s['no_skindata_weights'] = True
